@@ -450,7 +450,7 @@ pub fn gen_normal(rng: &mut Rng, cfg: &GenCfg, depth: usize) -> GTree {
         0..=4 => gen_element(rng, cfg, depth),
         5..=7 => GTree::leaf(GValue::Text(gen_text(rng, cfg, true))),
         8 => GTree::leaf(GValue::Comment(gen_comment(rng))),
-        _ => GTree::leaf(GValue::PI(*rng.pick(&[17usize, 18]), gen_pi_data(rng))),
+        _ => GTree::leaf(GValue::PI(*rng.pick(&[17usize, 18, 19, 19]), gen_pi_data(rng))),
     }
 }
 
@@ -461,7 +461,7 @@ pub fn gen_document(rng: &mut Rng, cfg: &GenCfg) -> GTree {
         if rng.chance(1, 2) {
             GTree::leaf(GValue::Comment(gen_comment(rng)))
         } else {
-            GTree::leaf(GValue::PI(17, gen_pi_data(rng)))
+            GTree::leaf(GValue::PI(*rng.pick(&[17usize, 18, 19]), gen_pi_data(rng)))
         }
     };
     for _ in 0..rng.below(2) {
